@@ -129,6 +129,21 @@ def write_md(results):
             v = e[pid]
             lines.append("| %s | %s | %s | %s | %s | %s |" % (n, breaks, pid, v["tier"], v["verdict"], v["seconds"]))
     open(os.path.join(SEEDED, "RESULTS.md"), "w").write("\n".join(lines) + "\n")
+    # the summary block of DESIGN.md §10
+    dp = os.path.join(ROOT, "DESIGN.md")
+    if os.path.exists(dp):
+        d = open(dp).read()
+        a, b = "<!-- SEEDED-TABLE-BEGIN -->", "<!-- SEEDED-TABLE-END -->"
+        if a in d and b in d:
+            rows = ["| change | check: verdict |", "|---|---|"]
+            for n in sorted(results):
+                e = results[n]
+                if "error" in e:
+                    rows.append("| %s | %s |" % (n, e["error"]))
+                else:
+                    rows.append("| %s | %s |" % (n, "; ".join("%s: %s" % (pid, e[pid]["verdict"].replace("caught: ", "")) for pid in sorted(e))))
+            d = d[:d.index(a) + len(a)] + "\n" + "\n".join(rows) + "\n" + d[d.index(b):]
+            open(dp, "w").write(d)
 
 
 if __name__ == "__main__":
